@@ -55,6 +55,8 @@ class Engine(ExprMixin, CallMixin):
         self.lemmas = dict(getattr(sidecar, "LEMMAS", {}))
         self.ufuns = {}
         self.global_facts = []
+        _values.PACK["enabled"] = bool(getattr(sidecar, "PACK_KEYS", False))
+        _values.PACK["sink"] = self.global_facts if _values.PACK["enabled"] else None
         self.prune = bool(getattr(sidecar, "PRUNE_BRANCHES", False))
         self.spec_env = {}
         self.spec_names = set()
@@ -864,7 +866,15 @@ class Engine(ExprMixin, CallMixin):
         for n in self.not_none_names(test, truth):
             v = st.env.get(n)
             if isinstance(v, VOpt):
-                st.env[n] = v.val
+                # the payload gets a name of its own (a fresh constant defined equal to it): keeps later terms small when
+                # the Optional was a merge of several lookups
+                def named(leaf):
+                    if z3.is_const(leaf) or z3.is_int_value(leaf) or z3.is_string_value(leaf):
+                        return leaf
+                    c = z3.Const(uid(n + ".some"), leaf.sort())
+                    st.assume(c == leaf)
+                    return c
+                st.env[n] = tmap(named, v.val)
                 st.narrowed = st.narrowed | {n}
 
     def st_With(self, s, st):
@@ -1361,6 +1371,11 @@ class Engine(ExprMixin, CallMixin):
             goal = self.spec_eval(cmd[4:], st)
             self.emit(f"ghost.cut[{label}]", st, goal, node, kind="ghost")
             st.pc[:] = [to_z3(goal)]
+        elif cmd.startswith("keep "):
+            # proof cut without a new obligation: from here on this path knows only its last n hypotheses (typically the
+            # facts just established by the preceding ghost asserts).  Dropping hypotheses is always sound.
+            n = int(cmd[5:])
+            st.pc[:] = st.pc[-n:] if n > 0 else []
         elif cmd.startswith("identity "):
             # a universally valid (ring) identity: proved without any hypotheses, then assumed
             label = g.get("label", g["at"][:24])
